@@ -23,7 +23,10 @@ TraceInit == /\ tid \in 1..Len(Traces) /\ l = 1
 
 TPre(e) == PreCheck /\ C' = e.C /\ K' = PSet(e.K) /\ E' = ISet(e.E) /\ UNCHANGED <<restoreOK, bsOK>>
 (* the Bulirsch-Stoer part ran over exactly the encounter list of the model *)
-TWord(e) == Attempt /\ Word = e.w /\ bsOK' = (bsOK /\ (e.bs # <<>> => ISet(e.bs) = E)) /\ UNCHANGED restoreOK
+(* ... and counted exactly the active members of the list (the star included) as active *)
+TWord(e) == Attempt /\ Word = e.w
+            /\ bsOK' = (bsOK /\ (e.bs # <<>> => ISet(e.bs) = E /\ e.bsna = Cardinality({k \in E : k < NA})))
+            /\ UNCHANGED restoreOK
 (* the encounter list after the post-check is only used when the step is redone: it is compared in that case.
    Traces are validated with MapFromPost = TRUE, the transition the pinned code takes (known finding
    C01-trace-redo-drops-pair): every event must still match, and the traces on which that transition leaves a flagged pair
